@@ -67,6 +67,7 @@ type monState struct {
 	snapRing     [64]*Snap               // the last snapshots, by step number modulo its length (C12 r6)
 	logsPending  map[string]*pendingLogs // job removed by a save whose log files were still there in the step of the removal
 	removeFailed map[string]bool         // jobs whose log removal failed by injection
+	goneBySave   map[string]int          // job -> step in which a save removed it from the runner
 	snapAtSave   map[int]*Snap       // handed-save index -> API snapshot at the instant the snapshot was built
 	lastChangeAt time.Duration       // fake time of the last step that changed the reported state
 	liveExec      map[string]int     // job -> scheduler runs begun and not yet completed
@@ -78,7 +79,7 @@ type monState struct {
 func newMonState(run *Run) *monState {
 	return &monState{run: run, acc: map[string]*acceptInfo{}, evByJob: map[string][]Event{},
 		startStep: map[string]int{}, startAt: map[string]time.Duration{}, defChanged: map[string]int{},
-		removed: map[string]int{}, firstFail: map[string]int{}, replaced: map[string]bool{}, logsPending: map[string]*pendingLogs{}, removeFailed: map[string]bool{}, taskOrderByDef: map[string]string{},
+		removed: map[string]int{}, firstFail: map[string]int{}, replaced: map[string]bool{}, logsPending: map[string]*pendingLogs{}, removeFailed: map[string]bool{}, goneBySave: map[string]int{}, taskOrderByDef: map[string]string{},
 		worldOfJob: map[string]int{}, forcedCancel: map[string]bool{}, undefinedAt: map[string]int{},
 		lastSeen: map[string]*JobSnap{}, snapAtSave: map[int]*Snap{}, initialLoaded: "[]",
 		liveExec: map[string]int{}, execPipeline: map[string]string{}}
